@@ -3,6 +3,7 @@ package c04
 
 import (
 	"fmt"
+	"github.com/golang/geo/s2"
 	"sort"
 	"testing"
 
@@ -66,6 +67,20 @@ func check(c Case) vlib.Outcome {
 	}
 	if vlib.Known("c04-level0-covering-cells") && c.Set.ScaleE7 > 10000000 {
 		return vlib.Excluded("c04-level0-covering-cells")
+	}
+	// polygons are simple loops: the search code is entitled to valid geometry
+	for _, f := range c.Set.Features {
+		for _, p := range f.Polys {
+			for _, l := range p.Loops {
+				var ps []s2.Point
+				for _, ll := range l {
+					ps = append(ps, ll.Point())
+				}
+				if len(ps) < 3 || s2.LoopFromPoints(ps).Validate() != nil {
+					return vlib.Outcome{Skip: true, Classes: []string{"skipped:degenerate-polygon"}}
+				}
+			}
+		}
 	}
 	w, err := build(c)
 	if err != nil {
